@@ -214,6 +214,8 @@ func (eb ExposureBias) MarshalText() (text []byte, err error) {
 // UnmarshalText implements the TextUnmarshaler interface that is
 // used by encoding/json
 func (eb *ExposureBias) UnmarshalText(text []byte) (err error) {
+	// whatever the target held before is replaced, also by "no bias"
+	*eb = 0
 	if len(text) == 0 || text[0] == '0' {
 		return
 	}
